@@ -19,7 +19,16 @@ impl<T: Clone + Ord + PartialOrd> LoserTree<T> {
         let mut losers = Vec::with_capacity(size - 1);
         let mut leaves = Vec::with_capacity(size);
 
-        losers.resize(size - 1, 0);
+        // every internal node starts out pointing to the leftmost leaf below it,
+        // so that it never refers to a leaf outside its own subtree
+        let internal_nodes = size - 1;
+        for node in 0..internal_nodes {
+            let mut leftmost = node;
+            while leftmost < internal_nodes {
+                leftmost = 2 * leftmost + 1;
+            }
+            losers.push(leftmost - internal_nodes);
+        }
         leaves.resize(size, None);
         Self {
             losers,
@@ -78,10 +87,12 @@ impl<T: Clone + Ord + PartialOrd> LoserTree<T> {
             i = parent;
         }
 
-        self.winner = self.losers[0];
+        // a tree with a single leaf has no internal node
+        self.winner = self.losers.first().copied().unwrap_or(0);
     }
 
     pub fn clear(&mut self) {
+        self.leaves.iter_mut().for_each(|leaf| *leaf = None);
         self.size = 0;
         self.winner = 0;
     }
